@@ -27,6 +27,7 @@ CONSTANTS Bases,     \* set of base prox expressions
           Alphas,    \* step sizes
           Points,    \* set of input vectors (sequences of complex rationals)
           MaxWraps,
+          MaxStackSize,   \* largest flattened size of a three-member Stack (there must be Points of that length)
           SqrtBound
 
 VARIABLES cur, wraps, alpha, y, out, phase
@@ -72,13 +73,17 @@ RECURSIVE HasBox(_)
 HasBoxB(e) == e.k = "Box" \/ \E i \in 1..Len(e.s) : HasBox(e.s[i])
 HasBox(e) == HasBoxB(e)
 IsRealMat(U) == \A i \in 1..Len(U) : \A j \in 1..Len(U[i]) : U[i][j][2] = RInt(0)
-RECURSIVE Size(_)
+RECURSIVE Size(_), SizeSum(_, _)
 SizeB(e) ==
-  CASE e.k = "Stack" -> Size(e.s[1]) + Size(e.s[2])
+  CASE e.k = "Stack" -> SizeSum(e.s, Len(e.s))            \* any number of members
     [] e.k \in {"Conj", "L2RegH"} -> Size(e.s[1])
     [] e.k = "Unitary" -> Len(e.m[1])
     [] OTHER -> e.q[1][1]                    \* base classes carry their length as first parameter
 Size(e) == SizeB(e)
+SizeSumB(ss, n) == IF n = 0 THEN 0 ELSE SizeSum(ss, n - 1) + Size(ss[n])
+SizeSum(ss, n) == SizeSumB(ss, n)
+\* Stack([P1, ..., Pk]): member i owns the i-th run of the flattened input
+Part(e, u, i) == SubSeq(u, SizeSum(e.s, i - 1) + 1, SizeSum(e.s, i))
 \* L2Proj(axes = ...): the array is cut into g groups (rows of a [g, n/g] array for axes = last) with one ball each.
 \* "L2ProjG" carries q = <<n, eps, g>> and the bias vector; group j is the j-th run of n/g consecutive elements.
 RECURSIVE HasGroups(_)
@@ -144,8 +149,7 @@ ProxModelB(e, al, u) ==
     [] e.k = "Box"      -> TLCEval([i \in 1..Len(u) |-> <<ClipR(e.q[2], e.q[3], u[i][1]), RInt(0)>>])
     [] e.k = "Conj"     -> \* Moreau: u - al * prox_{g, 1/al}(u / al)
          VSub(u, VScale(al, ProxModel(e.s[1], RInv(al), VScale(RInv(al), u))))
-    [] e.k = "Stack"    -> LET n1 == Size(e.s[1]) IN
-         ProxModel(e.s[1], al, SubSeq(u, 1, n1)) \o ProxModel(e.s[2], al, SubSeq(u, n1 + 1, Len(u)))
+    [] e.k = "Stack"    -> CatTo(TLCEval([i \in 1..Len(e.s) |-> ProxModel(e.s[i], al, Part(e, u, i))]), Len(e.s))
     [] e.k = "Unitary"  -> MatVec(ConjTQ(e.m[1]), ProxModel(e.s[1], al, MatVec(e.m[1], u)))
 ProxModel(e, al, u) == ProxModelB(e, al, u)
 
@@ -206,9 +210,7 @@ IsMinimiserB(e, al, v, x) ==
             \/ (x[i][1] = e.q[3] /\ RLt(e.q[3], v[i][1]))
             \/ (x[i][1] = e.q[2] /\ RLt(v[i][1], e.q[2]))
     [] e.k = "Conj"     -> IsMinimiser(e.s[1], RInv(al), VScale(RInv(al), v), VScale(RInv(al), VSub(v, x)))
-    [] e.k = "Stack"    -> LET n1 == Size(e.s[1]) IN
-         /\ IsMinimiser(e.s[1], al, SubSeq(v, 1, n1), SubSeq(x, 1, n1))
-         /\ IsMinimiser(e.s[2], al, SubSeq(v, n1 + 1, Len(v)), SubSeq(x, n1 + 1, Len(x)))
+    [] e.k = "Stack"    -> \A i \in 1..Len(e.s) : IsMinimiser(e.s[i], al, Part(e, v, i), Part(e, x, i))
     [] e.k = "Unitary"  -> IsMinimiser(e.s[1], al, MatVec(e.m[1], v), MatVec(e.m[1], x))
 IsMinimiser(e, al, v, x) == IsMinimiserB(e, al, v, x)
 
@@ -229,7 +231,8 @@ WrapL2Reg ==
   /\ wraps' = wraps + 1 /\ UNCHANGED <<alpha, y, out, phase>>
 WrapStack ==
   /\ phase = "build" /\ wraps < MaxWraps
-  /\ \E b \in StackBases : cur' = Mk("Stack", <<>>, <<>>, <<>>, <<cur, b>>)
+  /\ \/ \E b \in StackBases : cur' = Mk("Stack", <<>>, <<>>, <<>>, <<cur, b>>)
+     \/ \E b1, b2 \in StackBases : Size(cur) + Size(b1) + Size(b2) <= MaxStackSize /\ cur' = Mk("Stack", <<>>, <<>>, <<>>, <<b1, cur, b2>>)   \* three members, cur in the middle
   /\ wraps' = wraps + 1 /\ UNCHANGED <<alpha, y, out, phase>>
 WrapUnitary ==
   /\ phase = "build" /\ wraps < MaxWraps
